@@ -50,7 +50,13 @@ LEVEL_TEXT = (
     "index = groupBy(documented reference) exactly and unconditionally (mirror; finding F1 is repaired in kopf 5068b98 "
     "and kept as a regression example + corpus case), and the key set the other read-only methods (`in`, `len`, truth, "
     "iteration) answer from is exactly the reference's (key_present_iff; the real methods of Index/Store/OperatorIndices "
-    "are compared with the documented reference by the oracle after every event); the Lean reference reads any Mapping result as the code does "
+    "are compared with the documented reference by the oracle after every event); one retry/exclusion memory per object, "
+    "whatever key tells the objects apart — also for objects WITHOUT a uid since kopf 8c8cff5 repaired finding C17-F5 "
+    "(memory_others_untouched, keyed_follows, mirror_keyed; the old key `uid or ''` is kept as the variant of "
+    "shared_memory_witness and as a corpus regression; no case is excluded from the D tie any more); "
+    "the model's object is the index key (make_key): for objects without a uid that is (namespace, name) only — namesakes of two "
+    "kinds / a predecessor and its successor share one entry (namesakes_share_entry_witness = open finding F6, oracle + corpus); "
+    "the Lean reference reads any Mapping result as the code does "
     "(open finding F2 is a docs-vs-code matter, reported by the oracle only); the keep/remove table incl. the "
     "retries=/timeout= budget. GATE clause: safety for every interleaving with any number of spawn_missing_watchers batches incl. the "
     "empty first batch of a namespaced start-up, watcher deaths and respawns: gate_safe for the START-UP kinds (those "
@@ -81,6 +87,11 @@ THEOREMS = [
     ("Kopf.Props.C17", "Kopf.C17.mirror_exclusions"),
     ("Kopf.Props.C17", "Kopf.C17.key_present_iff"),
     ("Kopf.Props.C17", "Kopf.C17.others_untouched"),
+    ("Kopf.Props.C17", "Kopf.C17.memory_others_untouched"),
+    ("Kopf.Props.C17", "Kopf.C17.keyed_follows"),
+    ("Kopf.Props.C17", "Kopf.C17.mirror_keyed"),
+    ("Kopf.Props.C17", "Kopf.C17.shared_memory_witness"),
+    ("Kopf.Props.C17", "Kopf.C17.namesakes_share_entry_witness"),
     ("Kopf.Props.C17", "Kopf.C17.deleted_discards"),
     ("Kopf.Props.C17", "Kopf.C17.mismatch_discards"),
     ("Kopf.Props.C17", "Kopf.C17.excluded_stays_out"),
@@ -107,8 +118,9 @@ RULE = ("index: 1-3 @kopf.index handlers (resource x label filter x errors mode 
         "deadlines; per event and handler a scripted result (dict with 0-2 keys from a colliding alphabet incl. None, "
         "scalar incl. falsy and bool/int twins, a non-dict Mapping (kopf.Memo), None, TemporaryError(delay), "
         "PermanentError, arbitrary exception); a case is distinct by its sequence of (event type, per-handler rule "
-        "applied) and non-trivial when it hits a non-set rule, a key collision or a re-keying; 8% of the cases have one or "
-        "two objects WITHOUT a uid, 12% of the events carry body parts the rules do not look at (deletionTimestamp, foreign "
+        "applied) and non-trivial when it hits a non-set rule, a key collision or a re-keying; 10% of the cases have one to "
+        "three objects WITHOUT a uid (half of them with a creationTimestamp, which changes when the object is deleted and "
+        "created again under the same name; all in the Lean tie), 12% of the events carry body parts the rules do not look at (deletionTimestamp, foreign "
         "finalizers, annotations, ownerReferences, status); after every event the index is read through __iter__/__getitem__ "
         "AND through __contains__/__len__/__bool__ of Index, Store and the indices container. gate: a start-up through "
         "the real adjust_tasks, cluster-wide (2-3 resources + plain, one batch) or namespaced (1-2 resources x 1-2 "
@@ -130,7 +142,10 @@ TRUSTED = [
     "the processor and a scripted watching.infinite_watch (no source hooks); orchestration.adjust_tasks is called directly "
     "with a real Insights object (the orchestrator's own loop and its task monitoring are C19/C20's subject)",
     "index values are JSON data without floats, index keys are strings or None; object uids are unique across kinds (as in "
-    "Kubernetes); objects without a uid have unique (namespace, name) pairs across kinds",
+    "Kubernetes); GENERATED objects without a uid have unique (namespace, name) pairs across kinds and are created again only "
+    "after their DELETED event was processed: the indices address such objects by (namespace, name) alone — namesakes of two "
+    "kinds and a predecessor/successor pair handled by two workers share one index entry (open finding C17-F6: corpus "
+    "witnesses F6_*, replayed on the real code; the oracle tells such objects apart, the Lean model follows make_key)",
     "part S: harness/sim (virtual-time loop, fake API server with per-kind LIST latency added by a FakeSession subclass), "
     "the handlers' own logs; the operator runs cluster-wide and standalone (no peering, no pause)",
     "events are modelled one after another: OperatorIndexers.replace/discard are synchronous and touch only the event's own "
@@ -156,8 +171,11 @@ ASSUMPTIONS = [
     "daemons/timers/change handlers are behind the same single wait_for(True) as @kopf.on.event handlers: in the A runs "
     "only on-event handlers are registered and the `handle` label is the entry of process_resource_causes; that daemons, "
     "timers and change handlers really start behind the gate is checked by the S runs (own kwargs of every handler kind)",
-    "the Lean retry memory is one record per object; the code keeps ONE memory for all objects without a uid (open finding "
-    "C17-F5): cases with several uid-less objects are checked by the oracle only (counted: index.tie skipped)",
+    "an object without a uid that is deleted and created again under the same name is the SAME object for the indices "
+    "(make_key: namespace, name, no uid) and — when its creationTimestamp is absent or unchanged — for the memories "
+    "(_build_key, as for queueing.get_uid: 'slightly less unique identifiers'): its DELETED event forgets the memory and "
+    "discards the values, so nothing leaks into the successor as long as that event is delivered and processed first "
+    "(generated and in the corpus); a deletion the watch never delivers is the assumption above",
     "gate_can_open_iff has no worker limit: with settings.queueing.worker_limit below the number of listed objects of one "
     "indexed kind the pending workers keep their toggles and the running ones wait for them — the gate never opens "
     "(liveness, beyond C17; corpus N2_*, generated with worker_limit 1-3)",
@@ -167,8 +185,11 @@ KINDS = ["kexa", "kexb", "kexc"]
 LATE_KIND = "kexd"      # a kind discovered after the start-up (second spawn_missing_watchers batch)
 GROUP, VERSION = "kopf.dev", "v1"
 F2_SIG = {"site": "OperatorIndexer.replace", "shape": "a non-dict Mapping result is unpacked by key (docs: strictly dict)"}
+F6_SIG = {"site": "indexing.OperatorIndexers.make_key", "shape": "objects without a uid are ONE index entry per (namespace, name): a namesake of "
+          "another kind, or the late DELETED of a predecessor with another creationTimestamp, discards a live object's values"}
+# finding C17-F5 is repaired (kopf 8c8cff5): a failure of this shape is a regression, never a known finding
 F5_SIG = {"site": "inventory.ResourceMemories._build_key", "shape": "objects without a uid share one memory: the indexing "
-          "retry/exclusion record of one decides for the others"}
+          "retry/exclusion record of one decides for the others", "regression_of": "C17-F5"}
 
 
 # =================================================================================================
@@ -242,14 +263,17 @@ def gen_index_case(rng: random.Random) -> dict:
     for j in range(nobj):
         objs.append({"res": rng.choice(kinds), "name": f"o{j % 3}", "ns": rng.choice(["ns", "ns", None]),
                      "uid": f"u{j}", "gen": 0, "live": False})
-    if rng.random() < 0.08:
-        # one object WITHOUT a uid (kopf: "those rare objects that have no uid but are still exposed via the K8s
-        # API"): its identity is (namespace, name) alone — `make_key` must keep them apart from everything else.
-        # Sometimes two: they must stay apart in the indices, but they share ONE ResourceMemory (open finding C17-F5:
-        # attributed by the oracle; the Lean tie is skipped for such cases — its model has one memory per object).
-        for n_, o in enumerate(rng.sample(objs, min(len(objs), rng.choice([1, 2])))):
+    if rng.random() < 0.10:
+        # objects WITHOUT a uid (kopf: "those rare objects that have no uid but are still exposed via the K8s
+        # API"): their identity is (namespace, name) alone in the indices (`make_key`) and kind/apiVersion/name/
+        # namespace/creationTimestamp in the memories (`_build_key` since kopf 8c8cff5; before it ONE memory for all
+        # of them: the repaired finding C17-F5). Several of them must stay apart in the indices AND in the retry /
+        # exclusion memory. Some have a creationTimestamp (it changes when the object is created again), some none
+        # (`v1/ComponentStatus`: the re-created object has the very same key — its DELETED event must clean up).
+        for n_, o in enumerate(rng.sample(objs, min(len(objs), rng.choice([1, 2, 2, 3])))):
             o["uid"] = None
             o["name"] = f"nouid{n_}"
+            o["cts"] = rng.choice([None, f"2020-01-0{n_ + 1}T00:00:00Z"])
     events = []
     t = 0
     # deadlines worth hitting exactly: now + delay of a pending temporary error
@@ -277,6 +301,8 @@ def gen_index_case(rng: random.Random) -> dict:
                 deadlines.append(t + ix["timeout"])
         ev = {"t": t, "res": o["res"], "name": o["name"], "ns": o["ns"], "uid": o["uid"],
               "type": typ, "label": rng.choice([None, "a", "a", "a", "b"]), "script": script}
+        if o.get("cts") is not None:
+            ev["cts"] = o["cts"]
         if rng.random() < 0.12:
             # parts of the body the documented rules do NOT look at: an object marked for deletion (with or without
             # finalizers), annotated, owned … is a live object until its DELETED event
@@ -288,13 +314,25 @@ def gen_index_case(rng: random.Random) -> dict:
             o["gen"] += 1
             if o["uid"] is not None:
                 o["uid"] = f"{o['uid'].split('-')[0]}-{o['gen']}"   # a recreated object gets a new uid
+            elif o.get("cts") is not None:
+                o["cts"] = f"{o['cts'][:11]}{o['gen']:02d}:00:00Z"    # … or at least a new creationTimestamp
         else:
             o["live"] = True
     return {"kind": "index", "kinds": kinds, "indexers": indexers, "default_backoff": bk, "events": events}
 
 
 def objkey(ev: dict) -> str:
+    """The object as the INDICES address it (`OperatorIndexers.make_key`: namespace, name, uid) — the model's object."""
     return f"{ev['ns']}/{ev['name']}/{ev['uid']}"
+
+
+def ident(ev: dict) -> str:
+    """The object as the PROPERTY means it ("matching live objects"; oracle only): uids are unique; an object without a
+    uid is told apart by kind, namespace, name and creationTimestamp (what queueing.get_uid and — since kopf 8c8cff5 —
+    the memories use). Differs from `objkey` for objects without a uid only (open finding C17-F6)."""
+    if ev["uid"] is not None:
+        return objkey(ev)
+    return f"{ev['res']}:{ev['ns']}/{ev['name']}/None@{ev.get('cts')}"
 
 
 def realise(script: list) -> Any:
@@ -386,6 +424,8 @@ async def run_index_case(case: dict) -> dict:
             meta["namespace"] = e["ns"]
         if e["label"] is not None:
             meta["labels"] = {"grp": e["label"]}
+        if e.get("cts") is not None:
+            meta["creationTimestamp"] = e["cts"]
         body = {"apiVersion": f"{GROUP}/{VERSION}", "kind": e["res"].capitalize(), "metadata": meta, "spec": {"t": e["t"]}}
         for x in e.get("extra", ()):
             if x == "deletionTimestamp":
@@ -398,7 +438,8 @@ async def run_index_case(case: dict) -> dict:
                 meta["ownerReferences"] = [{"apiVersion": "v1", "kind": "Pod", "name": "p", "uid": "p-uid", "controller": True}]
             elif x == "status":
                 body["status"] = {"phase": "Terminating"}
-        uid2key[memories._build_key(body)] = objkey(e)  # the memory key of the code under test (HEAD: `uid or ''`)
+        uid2key[memories._build_key(body)] = objkey(e)  # the memory key of the code under test (HEAD: the uid, or the
+        #                                                 surrogate kind//apiVersion//name//namespace//creationTimestamp)
         cur.clear()
         cur.update(e["script"])
         calls.clear()
@@ -456,42 +497,51 @@ async def run_index_case(case: dict) -> dict:
 # ---- the oracle: a dictionary reference model written from docs/indexing.rst --------------------
 def oracle_index(case: dict, obs: dict) -> list[tuple[str, dict, dict]]:
     """The documented rules; a failure is attributed to F2 only when it vanishes once a non-dict Mapping
-    is read the way the code reads it, to F5 only when it vanishes once the objects without a uid share
-    one retry memory as they do in the code (and to F1 only when the views are equal up to Python's ==)."""
+    is read the way the code reads it, to a regression of the repaired F5 only when it vanishes once the
+    objects without a uid share one retry memory as they did before kopf 8c8cff5 (and to F1 only when the
+    views are equal up to Python's ==). Only F2 is an open finding: the others are VIOLATIONs."""
     fails = _oracle_index(case, obs, memo_as_dict=False)
-    memo, nouid = _memo_seen(case, len(case["events"])), len(_uidless(case)) > 1
-    if fails and (memo or nouid):
-        def ident(f: tuple) -> tuple:
+    memo, nouid, byname = _memo_seen(case, len(case["events"])), len(_uidless(case)) > 1, len(_uidless(case)) > 0
+    if fails and (memo or byname):
+        def fid(f: tuple) -> tuple:
             return (f[1].get("event"), f[1].get("index"), f[2].get("site"))
 
-        def left(memo_as_dict: bool, shared: bool) -> set:
-            return {ident(f) for f in _oracle_index(case, obs, memo_as_dict=memo_as_dict, uidless_shared=shared)}
-        alt2 = left(True, False) if memo else None          # the code's reading of a non-dict Mapping
-        alt5 = left(False, True) if nouid else None         # the code's one memory for all uid-less objects
-        alt25 = left(True, True) if memo and nouid else None
+        cache: dict[tuple, set] = {}
+
+        def left(memo_as_dict: bool, shared: bool, by_name: bool) -> set:
+            k = (memo_as_dict, shared, by_name)
+            if k not in cache:
+                cache[k] = {fid(f) for f in _oracle_index(case, obs, memo_as_dict=memo_as_dict, uidless_shared=shared,
+                                                          by_name=by_name)}
+            return cache[k]
+        # the readings of the code (F2: a non-dict Mapping is unpacked; F6: uid-less objects are one index entry per
+        # namespace/name) and of the OLD code (F5: one memory for all uid-less objects), smallest sets first
+        readings = [(m, sh, bn) for n_ in (1, 2, 3) for m in (False, True) for sh in (False, True) for bn in (False, True)
+                    if m + sh + bn == n_ and (memo or not m) and (nouid or not sh) and (byname or not bn)]
 
         def attribute(f: tuple) -> dict:
             if f[2].get("site") in ("index_resource", "OperatorIndexers", "OperatorIndices") and f[2].get("shape") != "wrong set of index functions invoked":
                 return f[2]
-            if alt2 is not None and ident(f) not in alt2:
-                return F2_SIG                   # gone once the Mapping is read as the code reads it
-            if alt5 is not None and ident(f) not in alt5:
-                return F5_SIG                   # gone once the uid-less objects share one retry memory
-            if alt25 is not None and ident(f) not in alt25:
-                return F2_SIG                   # both readings are needed: both open findings contribute
+            for m, sh, bn in readings:
+                if fid(f) not in left(m, sh, bn):       # gone once the case is read that way
+                    return F5_SIG if sh else F6_SIG if bn else F2_SIG    # F5 is repaired: it must not be back
             return f[2]
         fails = [(w, d, attribute((w, d, sg))) for (w, d, sg) in fails]
     return fails
 
 
 def _uidless(case: dict) -> set[str]:
-    return {objkey(e) for e in case["events"] if e["uid"] is None}
+    return {ident(e) for e in case["events"] if e["uid"] is None}
 
 
-def _oracle_index(case: dict, obs: dict, memo_as_dict: bool, uidless_shared: bool = False) -> list[tuple[str, dict, dict]]:
+def _oracle_index(case: dict, obs: dict, memo_as_dict: bool, uidless_shared: bool = False,
+                  by_name: bool = False) -> list[tuple[str, dict, dict]]:
     """Returns failures as (what, detail, signature). Reads only the documented rules and the
     implementation-level observations (views, call log, escaped errors). `uidless_shared` (attribution
-    run only): the retry/exclusion memory of objects without a uid is ONE record, as in the code."""
+    run only): the retry/exclusion memory of objects without a uid is ONE record, as before kopf 8c8cff5.
+    `by_name` (attribution run only): objects without a uid are one index entry per (namespace, name), whatever
+    their kind and creationTimestamp, and an event of such an object of an indexed kind discards that entry
+    from the indices of the other kinds too — as `make_key`/`OperatorIndexers.replace` do (open finding F6)."""
     fails: list[tuple[str, dict, dict]] = []
     ixs = {ix["id"]: ix for ix in case["indexers"]}
     vals: dict[tuple[str, str], dict] = {}       # (index, object) -> {key: value}: the latest results
@@ -500,7 +550,7 @@ def _oracle_index(case: dict, obs: dict, memo_as_dict: bool, uidless_shared: boo
     first_fail: dict[tuple[str, str], int] = {}  # (index, object) -> time of the first failure of the running series
     indexed_kinds = {ix["res"] for ix in case["indexers"]}
     for n, e in enumerate(case["events"]):
-        o = objkey(e)
+        o = objkey(e) if by_name else ident(e)
         expect_calls = []
         shared = uidless_shared and e["uid"] is None
         if shared and e["type"] == "DELETED":   # (attribution run: the one shared memory is forgotten as a whole)
@@ -509,8 +559,10 @@ def _oracle_index(case: dict, obs: dict, memo_as_dict: bool, uidless_shared: boo
                     d_.pop((iid, "<no-uid>"), None)
         for iid, ix in ixs.items():
             pv = (iid, o)                       # the object's values in this index
-            p = (iid, "<no-uid>") if shared else pv     # its retry/exclusion record
+            p = (iid, "<no-uid>") if shared else (iid, ident(e))     # its retry/exclusion record
             if ix["res"] != e["res"]:
+                if by_name and e["uid"] is None and e["res"] in indexed_kinds:
+                    vals.pop(pv, None)          # (attribution run: the namesake's entry is discarded)
                 continue                        # objects of other kinds never enter this index
             if e["type"] == "DELETED":
                 vals.pop(pv, None)              # "deleted …: all associated values are removed"
@@ -1434,17 +1486,15 @@ def summarise_index(results: list[dict], source: str, sm: dict | None = None, wi
         for t, c in tags.items():
             _count(sm, "index.rule", t, c)
         _count(sm, "index.events", len(case["events"]))
-        _count(sm, "index.objects", len({objkey(e) for e in case["events"]}))
+        _count(sm, "index.objects", len({ident(e) for e in case["events"]}))
         _count(sm, "index.source", source)
         for what, detail, sig in r["fails"]:
-            known = sig in (F2_SIG, F5_SIG)
-            if sum(1 for f in sm["oracle"] if (f[2] in (F2_SIG, F5_SIG)) == known) < 12:
+            known = sig in (F2_SIG, F6_SIG)
+            if sum(1 for f in sm["oracle"] if (f[2] in (F2_SIG, F6_SIG)) == known) < 12:
                 sm["oracle"].append((what, {"case": case, "detail": detail, "impl": obs["snaps"]}, sig))
         _count(sm, "index.uidless_objects", len(_uidless(case)))
         _count(sm, "index.events_with_foreign_body_parts", sum(1 for e in case["events"] if e.get("extra")))
-        if len(_uidless(case)) > 1:
-            _count(sm, "index.tie", "skipped: several uid-less objects (one shared memory, finding F5; oracle only)")
-            continue
+        _count(sm, "index.uidless_recreated", sum(1 for e in case["events"] if e["uid"] is None and e["type"] == "DELETED"))
         tied.append(r)
         reqs.append(model_request(case, obs.get("memo_unpacked", True)))
     if with_lean and reqs:
